@@ -1562,6 +1562,8 @@ func main() {
 			scanOnce(o.Seed)
 		} else if *site == "multiroot" {
 			scanMultiRoot(o.Seed)
+		} else if strings.HasPrefix(*site, "opt-") {
+			scanOptions(o.Seed, strings.TrimPrefix(*site, "opt-"))
 		} else {
 			scanSite(o.Seed, *site, *smode)
 		}
@@ -1605,6 +1607,8 @@ func main() {
 				emit(l[:strings.LastIndex(l, " ")]+" "+schedStr(sched), reply)
 			case strings.HasPrefix(l, "cnc "):
 				replayCNC(l, out)
+			case strings.HasPrefix(l, "dsc "):
+				replayDSC(l, out)
 			case strings.HasPrefix(l, "pstrat "):
 				replayStrat(l, out)
 			case strings.HasPrefix(l, "pfree "):
@@ -1646,6 +1650,7 @@ func main() {
 			reps = 3
 		}
 		cncStream(reps, out)
+		dscStream(reps, out)
 		return
 	}
 	if *mode == "strat" {
